@@ -75,6 +75,9 @@ func (s *Service) proxyToSingleEndpoint(ctx context.Context, w http.ResponseWrit
 		s.RecordFailure(ctx, endpoint, time.Since(stats.StartTime), err)
 		return fmt.Errorf("failed to create proxy request: %w", err)
 	}
+	// the client's query goes upstream verbatim: re-parsing the URL string would take a "#" in
+	// it for the start of a fragment and cut the query there
+	proxyReq.URL.RawQuery, proxyReq.URL.Fragment, proxyReq.URL.RawFragment = targetURL.RawQuery, "", ""
 
 	rlog.Debug("created proxy request")
 
